@@ -203,6 +203,76 @@ func c14TextReuse(quick bool) C14Group {
 	return g
 }
 
+// c14TextRememberedId: "UNLOCK key" without LOCK_ID uses the id of the connection's last LOCK (README). Between the
+// LOCK (id given / generated) and the id-less UNLOCK every key-value command form runs on the same connection (on a
+// new key, on an existing key, on a missing key; one or two of them): the UNLOCK must release the lock all the same,
+// as the binary UNLOCK with that id does.
+func c14TextRememberedId(quick bool) C14Group {
+	g := C14Group{Name: "text-unlock-without-lock-id"}
+	kvs := [][]string{nil, {"SET", "n1", "v"}, {"SET", "e", "w"}, {"DEL", "e"}, {"DEL", "missing"}, {"INCR", "c1"}, {"INCR", "ec"}, {"APPEND", "p1", "x"}, {"SETNX", "q1", "v"},
+		{"GET", "e"}, {"EXISTS", "e"}, {"STRLEN", "e"}, {"EXPIRE", "e", "100"}, {"PERSIST", "e"}, {"GETSET", "e", "u"}, {"DECR", "c2"}, {"SETEX", "s1", "50", "v"}, {"PING"}}
+	distinct := map[string]bool{}
+	for _, withId := range []bool{true, false} {
+		for i, kv1 := range kvs {
+			for j, kv2 := range kvs {
+				if j != 0 && (quick && i%3 != 0 || i == 0) {
+					continue
+				}
+				g.Evaluations++
+				var msg string
+				rt := vrt.Run(vrt.Options{MaxPoints: 200_000_000}, func() {
+					node := hapi.Factories["n0"](hapi.Config{FastKeys: 4, Concurrent: 1})
+					if err := node.Start(); err != nil {
+						msg = "engine: " + err.Error()
+						return
+					}
+					vrt.AdvanceTo(1300 * ms)
+					tc, _ := wire.Dial(nodeAddr(0))
+					_ = tc.Send(wire.Resp("SET", "e", "old"))
+					_ = tc.Send(wire.Resp("INCR", "ec"))
+					tc.TakeText()
+					lock := []string{"LOCK", "a", "TIMEOUT", "0", "EXPRIED", "50"}
+					if withId {
+						lock = append(lock, "LOCK_ID", "ida")
+					}
+					_ = tc.Send(wire.Resp(lock...))
+					r0 := tc.TakeText()
+					ka := normKey("a")
+					if ks := node.Snapshot().Key(0, ka); ks == nil || len(ks.Holds) != 1 {
+						msg = fmt.Sprintf("engine: text %v did not take the key (reply %v)", lock, r0)
+						return
+					}
+					for _, kv := range [][]string{kv1, kv2} {
+						if kv != nil {
+							_ = tc.Send(wire.Resp(kv...))
+							tc.TakeText()
+						}
+					}
+					_ = tc.Send(wire.Resp("UNLOCK", "a"))
+					r := tc.TakeText()
+					if ks := node.Snapshot().Key(0, ka); ks != nil && len(ks.Holds) != 0 {
+						msg = fmt.Sprintf("connection history %v, %v, %v, UNLOCK a (no LOCK_ID): the lock taken by this connection's last LOCK is still held (reply %v); the binary UNLOCK with that id releases it", lock, kv1, kv2, r)
+					}
+					distinct[fmt.Sprint(r)] = true
+				})
+				if rt.Crash != nil {
+					msg = "crash: " + rt.Crash.Value
+				}
+				if strings.HasPrefix(msg, "engine:") {
+					g.Violations = append(g.Violations, explore.Violation{Sig: "engine", Msg: msg})
+					return g
+				}
+				if msg != "" && len(g.Violations) < 3 {
+					g.Violations = append(g.Violations, explore.Violation{Sig: "C14:text-unlock-without-id-misses-the-last-lock", Msg: msg})
+				}
+			}
+		}
+	}
+	g.Samples = append(g.Samples, fmt.Sprintf("%d histories LOCK / key-value command(s) / UNLOCK without LOCK_ID", g.Evaluations))
+	g.Distinct = len(distinct)
+	return g
+}
+
 // c14TextOptionWords: the text options TIMEOUT and EXPRIED carry a 4-byte unsigned value: flag word in the high
 // 16 bits, time in the low 16 bits. For every single flag bit (and a few combinations, and the extreme values)
 // of either option the text LOCK must be answered like, and leave the same hold terms as, the binary LOCK with
@@ -438,7 +508,7 @@ func init() {
 			return cp.ReplayFile(c, c.Args[1])
 		}
 		groups := RunC14Codec(c.Quick())
-		groups = append(groups, c14TextVsBinary(c.Quick()), c14TextReuse(c.Quick()), c14TextOptionWords(c.Quick()), c14TextCounts(c.Quick()), c14BinaryChunking(c.Quick()), c14ValueFrames(c.Quick()))
+		groups = append(groups, c14TextVsBinary(c.Quick()), c14TextReuse(c.Quick()), c14TextRememberedId(c.Quick()), c14TextOptionWords(c.Quick()), c14TextCounts(c.Quick()), c14BinaryChunking(c.Quick()), c14ValueFrames(c.Quick()))
 		evals, distinct, viol := 0, 0, 0
 		var samples []interface{}
 		per := map[string]interface{}{}
